@@ -6,7 +6,7 @@ V = "/verif"
 res = {}
 # round 1: results.jsonl; round 2: confirmations in results-r2.jsonl, final check runs in results-r2-final.jsonl;
 # runs of other properties' checks against a change in cross.jsonl (check ids are in the "== Cxx seed=" lines)
-for fn in ("results.jsonl", "results-r2.jsonl", "results-r2-final.jsonl"):
+for fn in ("results.jsonl", "results-r2.jsonl", "results-r2-final.jsonl", "results-r3.jsonl", "results-r3-final.jsonl"):
     p = os.path.join("/tmp/seed-out", fn)
     if not os.path.exists(p):
         continue
@@ -29,7 +29,7 @@ if os.path.exists(p):
             continue
         cross.setdefault(r["id"], []).append(r["check"])
 rows = []
-for d in sorted(glob.glob("/tmp/seed-out/C*C*/C*-?") + glob.glob("/tmp/seed-out/r2-*/C*-?*")):
+for d in sorted(glob.glob("/tmp/seed-out/C*C*/C*-?") + glob.glob("/tmp/seed-out/r2-*/C*-?*") + glob.glob("/tmp/seed-out/r3-*/C*-?")):
     sid = os.path.basename(d)
     if sid not in res:
         continue
